@@ -65,6 +65,18 @@ Proof. exact locales_independent. Qed.
 Theorem C11_counts : forall tops b, lens_ok (length tops) b -> counts_are tops (propagate tops b).
 Proof. exact (fun tops => proj1 (propagate_counts tops)). Qed.
 
+(** every nested block of the model's unit expects the length of that unit's own table *)
+Theorem C11_nested_counts : forall g,
+  counts_ok (N.of_nat (length (o_strings (index_locale g)))) (o_tree (index_locale g)) = true.
+Proof. exact unit_nested_counts. Qed.
+
+(** ... because every locale contributes exactly one nested Locale to every block (its own or an all-defaulted
+    dummy), so the position-wise `propagate_string_count` pairs each nested Locale with its own top locale *)
+Theorem C11_nested_blocks_aligned : forall b0 cs tops,
+  lens_ok 1 b0 -> length tops = S (length cs) ->
+  counts_are tops (propagate tops (fold_left (fun b c => push_locale c b) cs b0)).
+Proof. exact nested_blocks_counts. Qed.
+
 (** the exported file decodes (JSON grammar of RFC 8259, decoder of Runtime/Escape.v) to exactly
     the strings, for every list of strings over all code points *)
 Theorem C11_json_roundtrip : forall ss, json_decode (format ss) = Some ss.
